@@ -287,6 +287,41 @@ func (h *hist) epochChange() {
 	}
 }
 
+// shrinkScript is the directed scenario "the set shrinks under an almost complete vote": a fresh
+// subject collects ceil(2N/3)-1 votes, validators that have not voted leave until that count is a
+// two-thirds majority of the remaining set, then one of the earlier voters calls again. Under the
+// DESIGN §8 reading that call must release.
+func (h *hist) shrinkScript(paths []string) {
+	var s *subject
+	if h.rng.Intn(5) == 0 {
+		s = h.feeSubject(feeChainA)
+	} else {
+		s = h.newSubject(paths[h.rng.Intn(5)])
+		h.subs = append(h.subs, s)
+	}
+	vals := append([]*pk.Key{}, h.w.Vals...)
+	h.rng.Shuffle(len(vals), func(i, j int) { vals[i], vals[j] = vals[j], vals[i] })
+	c := cs.Threshold(len(vals)) - 1
+	for i := 0; i < c && !h.bad; i++ {
+		h.cast(s, vals[i], "validator")
+	}
+	for j := c; j < len(vals) && !h.bad && len(h.w.Vals) > 4 && cs.Threshold(len(h.w.Vals)) > h.vm.Count(s.id, h.w.Vals); j++ {
+		if err := h.w.RemoveValidator(vals[j]); err != nil {
+			h.r.Inconclusive("remove validator: " + err.Error())
+			h.bad = true
+			return
+		}
+		h.former = append(h.former, vals[j])
+		h.logf("epoch change: validator %x removed, N=%d", vals[j].Addr[:3], len(h.w.Vals))
+		h.r.Count("epoch_remove", 1)
+		h.shape += "-"
+	}
+	if !h.bad && c > 0 {
+		h.cast(s, vals[h.rng.Intn(c)], "repeat-voter")
+		h.r.Count("shrink_scripts", 1)
+	}
+}
+
 type tplT struct {
 	w     *cs.World
 	snap  *cs.Snapshot
@@ -340,6 +375,9 @@ func runHistory(r *kit.Run, rng *rand.Rand, n0, maxVals, idx int) {
 		h.subs = append(h.subs, h.newSubject(paths[rng.Intn(5)]))
 	}
 	epochRate := []int{0, 8, 20}[rng.Intn(3)] // some histories have no epoch change, some many
+	if n0 >= 5 && rng.Intn(5) == 0 {
+		h.shrinkScript(paths)
+	}
 	nOps := 30 + 3*n0
 	for i := 0; i < nOps && !h.bad; i++ {
 		if rng.Intn(100) < epochRate {
@@ -416,7 +454,7 @@ func TestC25(t *testing.T) {
 	defer r.Finish()
 	r.Rule("histories of 30+3N calls on main-net id over several concurrently open subjects on four vote-counting entry points (VOTE-router import, ripple-router import, addSignature, updateFee); voters: validators that have not voted, repeat voters, outsiders, former validators, future validators; validator-set changes (add / remove through node_manager + commitDpos) between votes at rate 0, 8% or 20%; initial N = 4..10 (thorough ..25); distinct = (initial N, sequence of model verdicts and epoch changes)")
 	rng := r.Rand("histories")
-	nh := r.N(600, 9000)
+	nh := r.N(400, 8000)
 	maxN := r.N(10, 25)
 	for i := 0; i < nh && r.Violations() < 30; i++ {
 		n0 := 4 + i%(maxN-3)
@@ -437,7 +475,7 @@ func TestC25(t *testing.T) {
 	r.Require("calls:signature:already-released", n/8)
 	r.Require("voter:repeat-voter", n)
 	r.Require("voter:former-validator", n/4)
-	r.Require("released_by:repeat-voter", 3) // release triggered by a repeat voter after the set shrank
+	r.Require("released_by:repeat-voter", n/12) // release triggered by a repeat voter after the set shrank
 	r.Require("epoch_add", n/4)
 	r.Require("epoch_remove", n/4)
 	for k := 4; k <= maxN; k++ {
